@@ -162,7 +162,8 @@ func setFromUpdateHandler(par, rounds int, rng *hx.Rand) (int, string) {
 		midOn, lateOn, updOn := false, false, false
 		m := incr.Map(g, w, func(x int) int {
 			if midOn {
-				v.Set(mid) // deferred
+				v.Set(mid)                                       // deferred
+				u.Update(func(x int) int { return x + mid%7 }) // deferred; the handler's Update must compose with it
 			}
 			return x
 		})
@@ -197,6 +198,7 @@ func setFromUpdateHandler(par, rounds int, rng *hx.Rand) (int, string) {
 			}
 			if midOn {
 				vv = mid
+				uv += mid % 7
 			}
 			if lateOn {
 				vv = late
